@@ -241,6 +241,26 @@ func (ex *Exec) frameObligations(fr *Frame, fc *FuncContract, final *State, entr
 				key, _, _ := ex.entry.leafBase(loc, j)
 				add(key, loc.Ref)
 			}
+		case ModWindow:
+			base := ex.eval(&env, m.Base)
+			if u, ok := base.T.Underlying().(*types.Slice); ok {
+				el := layoutOf(u.Elem())
+				off, ln := sliceOff(base), sliceLen(base)
+				for j, lf := range el.Leaves {
+					key := memKey(u.Elem(), j, lf)
+					add(key, sliceArr(base))
+					// elements of the backing array outside the slice's bounds are unchanged
+					srt := final.sorts[key]
+					if srt == nil {
+						continue
+					}
+					i := FreshVar("frame_idx", BVS(64))
+					outside := Or(BVCmp("bvslt", i, off), BVCmp("bvsge", i, BVBin("bvadd", off, ln)))
+					fin := Select(Select(final.get(key, srt), sliceArr(base)), i)
+					ini := Select(Select(ex.entry.get(key, srt), sliceArr(base)), i)
+					ex.oblige(fr, final, "frame", "frame:window:"+key, fr.fn.Pos(), "modifies "+m.Src, Implies(outside, Eq(fin, ini)))
+				}
+			}
 		case ModElems:
 			base := ex.eval(&env, m.Base)
 			switch u := base.T.Underlying().(type) {
